@@ -444,6 +444,19 @@ def reachable_without(body, banned_edges=(), banned_blocks=(), start=0):
     return seen
 
 
+def variant_of(F, e):
+    """variant name of a field-less enum value: a literal `Enum::V`, or a constant of that enum type (a named
+    `const X: Enum = Enum::V`, which MIR shows as its evaluated discriminant)"""
+    s = e.strip()
+    if s.k == "agg" and not s.a:
+        return s.x.get("variant")
+    if s.k == "const" and s.x.get("ty") in F.enum_tables and s.x.get("v") is not None:
+        return F.enum_tables[s.x["ty"]].get(int(s.x["v"]))
+    if s.k == "text" and s.x.get("variant"):
+        return s.x["variant"]
+    return None
+
+
 def site_alts(e):
     """alternatives of a value kept apart by the *site* that produces them (flat_alts merges alternatives that
     print the same, e.g. the same getter called before a loop and inside it)"""
